@@ -48,3 +48,8 @@ register("C04", ["c04"],
          "Static conjunctive guard tables on the verification code itself: for CommitQC::verify, TimeoutQC::verify (per loop iteration and after the loop), CommitQC::add / TimeoutQC::add (sibling rule), FinalBlock::verify and View::verify each check is an atom and the accepting site (signature check whose result is returned, union update, bit/signature mutation, Ok) must be reachable only on the all-checks-passed row; operands are compared as terms (weight of the certificate's own signers vs the same schedule's quorum threshold; keys derived from the same signer bitmap); type-directed obligations generated from the ADTs require every nested vote/certificate field to be verified; in the four bft handlers every state change is dominated by both verifications. Decides the soundness direction ('accepted only if ...') structurally; the completeness direction and the cryptography are not claimed.",
          ["BLS aggregate signature verification (blst) is sound", "Signers::weight sums exactly the set bits' weights (checked as C10 guard obligation)"],
          TRUSTED)
+
+register("C18", ["c18"],
+         "Static guard table of ValidatorAddrs::update over every batch entry (duplicate / member / stored / newer / signature atoms; 32 valuations) deciding when an entry is stored, verified, skipped or fails the batch; the all-or-nothing publish is decided structurally (the batch is applied to a local produced by Clone::clone, send_replace is dominated by the batch's success and runs only on Ok(true), no other caller applies a batch); is_newer is compared as a term with the strict lexicographic (version, timestamp) order; exact writer set of the address map; the RPC handler passes the current epoch's schedule. Convergence across nodes follows from the total order and is not computed.",
+         ["validator signature unforgeability", "tokio watch lock serialises updates"],
+         TRUSTED)
